@@ -84,13 +84,25 @@ def cases(rng, tier):
             txt = {"name": owner, "class": 1, "ttl": 120, "cf": False, "rdata": ("T", "TXT", [("L", [(0, b"k=v")])])}
             pkt = pC13.query_pkt(0, [])
             pkt["flags"] = 0x8400
-            layout = rng.below(3)
+            layout = rng.below(4)
             if layout == 0:
                 pkt["ans"], pkt["adds"] = [srv, txt], [addr]
             elif layout == 1:
                 pkt["ans"], pkt["adds"] = [], [srv, txt, addr]
-            else:
+            elif layout == 2:
                 pkt["ans"], pkt["adds"] = [addr, srv, txt], []
+            else:
+                pkt["ans"], pkt["nss"], pkt["adds"] = [txt], [srv], [addr]
+            # the envelope a real responder may put around the same records: the question it answers echoed back (legacy
+            # unicast responders and stacks that copy the query), a non-zero id, EDNS data, other header flags
+            if rng.chance(1, 3):
+                pkt["qs"] = [{"name": rng.choice([svc, owner]), "qtype": rng.choice([12, 255, 33]), "qclass": 1, "uni": rng.chance(1, 4)}]
+            if rng.chance(1, 3):
+                pkt["id"] = 1 + rng.below(65535)
+            if rng.chance(1, 5):
+                pkt["opt"] = {"udp": 1440, "version": 0, "codes": []}
+            if rng.chance(1, 4):
+                pkt["flags"] = 0x8000 | rng.choice([0, 0x0400, 0x0100, 0x0080, 0x0200])
             b, _ = dns.encode_marked(pkt, rng, rng.choice([0, 3]))
             toks += ["D"] + dns.name_toks(svc) + dns.name_toks(me) + [b.hex()]
             plan.append((kind, owner))
